@@ -60,7 +60,9 @@ def script_for():
     return [("obj", PIDS[0], CONTENTS[0]), ("obj", PIDS[1], CONTENTS[0]), ("obj", PIDS[2], CONTENTS[1]),
             ("obj", PIDS[4], CONTENTS[2]), ("meta", PIDS[0], None, b"<sys/>"), ("meta", PIDS[0], "c", b"<c/>"),
             ("meta", PIDS[1], "c", b"<abc/>"), ("meta", PIDS[3], FORMATS[2], b"<other/>"),
-            ("meta", PIDS[4], None, b""), ("meta", PIDS[0], "c\n", b"<c-newline/>"), ("meta", PIDS[1], " c", b"<space-c/>")]
+            ("meta", PIDS[4], None, b""), ("meta", PIDS[0], "c\n", b"<c-newline/>"), ("meta", PIDS[1], " c", b"<space-c/>"),
+            # an identifier that happens to be the path of an existing file (here: the first source file)
+            ("obj", "<PATH-OF-SOURCE-0>", b"path-shaped pid"), ("meta", "<PATH-OF-SOURCE-0>", "c", b"<p/>")]
 
 
 DV, WV, AV = z3.Int("depth"), z3.Int("width"), z3.Int("algo")
@@ -88,6 +90,8 @@ def run_config(ps, M, shim, native_root=None, enc=None):
                 fh.write(data)
             return native_root + "/src/" + name
     bad = []
+    src0 = put("o0", script[0][2])
+    script = [tuple(src0 if x == "<PATH-OF-SOURCE-0>" else x for x in op) for op in script]
     d_arg, w_arg = depth, width
     if enc == "str":
         d_arg, w_arg = str(depth), str(width)
